@@ -56,8 +56,8 @@ class C13(Prop):
     id = "C13"
     level = "fault_enumeration"
     tiers = {
-        "quick": [("share", 30000), ("cancel", 30000), ("sweep", 2500)],
-        "thorough": [("share", 700000), ("cancel", 700000), ("sweep", 60000)],
+        "quick": [("share", 180000), ("cancel", 180000), ("sweep", 15000)],
+        "thorough": [("share", 3600000), ("cancel", 3600000), ("sweep", 300000)],
     }
     rule_text = (
         "one case = 2..4 callers over 1..2 keys (function or method flavour), limit 1..2, expiration none/1s, invocation "
